@@ -343,6 +343,30 @@ class EscapeAnalysis:
                         ns = cfg.node_of_expr(x, self.prog.parent)
                         if not any(n in at_nodes for n in ns):
                             prior += ns
+                    # … or the same inside a helper of the class / module the name was handed to, on every path to the
+                    # helper's normal return (exceptions of the helper end this function or are the caller's handlers' business)
+                    if isinstance(x, ast.Call) and _depth < 2 and any(isinstance(a_, ast.Name) and a_.id == e.id for a_ in x.args):
+                        h_ = None
+                        if isinstance(x.func, ast.Attribute) and isinstance(x.func.value, ast.Name) and x.func.value.id in ("self", "cls") and fi.cls is not None:
+                            h_ = self.prog.lookup_method(fi.cls.qual, x.func.attr)
+                        elif isinstance(x.func, ast.Name):
+                            hq_ = self.prog.resolve_expr(fi.module, x.func)
+                            h_ = self.prog.funcs.get(hq_) if hq_ else None
+                        if h_ is not None and h_ is not fi:
+                            ps_ = [p_ for p_ in h_.params() if p_ not in ("self", "cls")]
+                            idx_ = next((i_ for i_, a_ in enumerate(x.args) if isinstance(a_, ast.Name) and a_.id == e.id), None)
+                            if idx_ is not None and idx_ < len(ps_):
+                                pn_ = ps_[idx_]
+                                hcfg = cfg_of(h_)
+                                shows = [y for y in walk_no_nested(h_.node) if (isinstance(y, ast.Subscript) and isinstance(y.value, ast.Name) and y.value.id == pn_ and isinstance(y.slice, ast.Constant)
+                                                                                and isinstance(y.slice.value, str) and isinstance(y.ctx, ast.Load))
+                                         or (isinstance(y, ast.Call) and isinstance(y.func, ast.Attribute) and y.func.attr in ("get", "items", "keys", "values") and isinstance(y.func.value, ast.Name) and y.func.value.id == pn_)]
+                                hn_ = [n_ for y in shows for n_ in hcfg.node_of_expr(y, self.prog.parent)]
+                                rets_ = [n_ for y in walk_no_nested(h_.node) if isinstance(y, ast.Return) for n_ in hcfg.nodes_of(y)]
+                                if hn_ and rets_ and not assignments_to(h_.node, pn_) and all(hcfg.must_pass(n_, hn_) for n_ in rets_):
+                                    ns = cfg.node_of_expr(x, self.prog.parent)
+                                    if not any(n in at_nodes for n in ns):
+                                        prior += ns
                 if prior and all(cfg.must_pass(n, prior) for n in at_nodes):
                     return "dict"
         for g, pol in atomic_guards(guards_at(self.prog, fi, at)):
@@ -351,6 +375,10 @@ class EscapeAnalysis:
             # element check: all(isinstance(x, T) for x in <e>) holds on the way here
             if pol:
                 m_ = re.fullmatch(r"all\(\(?isinstance\((\w+), ([\w., ()]+)\) for \1 in " + re.escape(txt) + r"\)?\)", g)
+                if m_:
+                    return f"list[{m_.group(2)}]"
+            if not pol:  # the same check spelled as a refusal: any(not isinstance(x, T) for x in <e>) does not hold here
+                m_ = re.fullmatch(r"any\(\(?not isinstance\((\w+), ([\w., ()]+)\) for \1 in " + re.escape(txt) + r"\)?\)", g)
                 if m_:
                     return f"list[{m_.group(2)}]"
             if pol and (g.startswith(f"{txt} in ") or g.startswith(f"{txt} == ")) and not g.startswith(f"{txt} in self."):
